@@ -164,8 +164,8 @@ func discoverUDP(c *Ctx) *udpModel {
 			m.add = f
 		case hasUpd && res.Len() == 1 && eng.TypeName(res.At(0).Type()) == m.connT:
 			m.set = f
-		case hasDel && !hasRange && res.Len() == 1:
-			m.del = f
+		case hasDel && !hasRange && res.Len() >= 1 && res.Len() <= 2:
+			m.del = f // returns what it removed: the entry / its socket, possibly with an ok flag
 		case hasRange && res.Len() <= 1 && f.Signature.Params().Len() == 0:
 			m.closeAll = f
 		case !hasUpd && !hasDel && !hasRange && res.Len() == 1 && eng.TypeName(res.At(0).Type()) == m.connT && f.Signature.Params().Len() == 1:
